@@ -792,10 +792,45 @@ def _col(cid, ctx):
 
 
 class Vec:
-    __slots__ = ("fam", "data", "const", "ftype")
+    __slots__ = ("fam", "data", "const", "ftype", "inexact")
 
-    def __init__(self, fam, data, const=False, ftype="e"):
+    def __init__(self, fam, data, const=False, ftype="e", inexact=False):
         self.fam, self.data, self.const, self.ftype = fam, data, const, ftype
+        # a float that went through floating-point arithmetic: its low bits depend on the engine's evaluation
+        # order, so functions that are discontinuous at integers (cast to int, floor, ceil) are undefined for
+        # values within rounding error of an integer (DESIGN section 4, D21)
+        self.inexact = inexact and fam == "float"
+
+
+INEXACT_IDS: set[int] = set()  # global column ids holding such floats
+EXACT_PASS = {"fill_null", "coalesce", "hmax", "hmin", "shift", "min", "max", "abs", "neg", "clip"}
+
+
+def near_integer(v):
+    return isinstance(v, float) and not (math.isnan(v) or math.isinf(v)) and abs(v - round(v)) <= 1e-6 * max(1.0, abs(v))
+
+
+def _fn_inexact(op, rf, args):
+    if rf != "float":
+        return False
+    if op in EXACT_PASS:
+        return any(a.inexact for a in args)
+    return True
+
+
+def _taint_discontinuous(op, args, out):
+    """floor / ceil of an inexact float next to an integer: not defined independently of the engine."""
+    if op in ("floor", "ceil") and args and args[0].inexact:
+        return [TAINT if near_integer(x) else o for x, o in zip(args[0].data, out)]
+    return out
+
+
+def _cast_vec(v, e, **kw):
+    tf = target_family(e["to"])
+    data = [cast_value(x, v.fam, e["to"]) for x in v.data]
+    if tf == "int" and v.fam == "float" and v.inexact:
+        data = [TAINT if near_integer(x) else d for x, d in zip(v.data, data)]
+    return Vec(tf, data, const=v.const, inexact=v.inexact, **kw)
 
 
 def lit_value(e):
@@ -837,11 +872,10 @@ def eval_rows(e, ctx: Ctx, n: int, under_fn=False) -> Vec:
         return Vec(fam, [v] * n, const=True)
     if k in ("col", "c"):
         c = _col(resolve(e, ctx), ctx)
-        return Vec(c.fam, c.data, ftype="e")
+        return Vec(c.fam, c.data, ftype="e", inexact=c.id in INEXACT_IDS)
     if k == "cast":
         v = eval_rows(e["e"], ctx, n, under_fn)
-        tf = target_family(e["to"])
-        return Vec(tf, [cast_value(x, v.fam, e["to"]) for x in v.data], const=v.const, ftype=v.ftype)
+        return _cast_vec(v, e, ftype=v.ftype)
     if k == "case":
         conds = [eval_rows(c, ctx, n, under_fn) for c, _ in e["cases"]]
         vals = [eval_rows(v, ctx, n, under_fn) for _, v in e["cases"]]
@@ -868,7 +902,7 @@ def eval_rows(e, ctx: Ctx, n: int, under_fn=False) -> Vec:
         for v in conds + vals + ([dflt] if dflt else []):
             if v.ftype == "w":
                 ft = "w"
-        return Vec(rf, out, ftype=ft)
+        return Vec(rf, out, ftype=ft, inexact=any(v.inexact for v in vals + ([dflt] if dflt else [])))
     if k == "fn":
         op = e["op"]
         if op in AGGREGATES or op in WINDOWS:
@@ -883,7 +917,8 @@ def eval_rows(e, ctx: Ctx, n: int, under_fn=False) -> Vec:
         else:
             rf, out = _apply_elementwise(op, fams, rowsiter)
         ft = "w" if any(a.ftype == "w" for a in args) else "e"
-        return Vec(rf, out, const=all(a.const for a in args), ftype=ft)
+        out = _taint_discontinuous(op, args, out)
+        return Vec(rf, out, const=all(a.const for a in args), ftype=ft, inexact=_fn_inexact(op, rf, args))
     raise RefUnsupported(k)
 
 
@@ -1023,7 +1058,7 @@ def eval_window(e, ctx: Ctx, n: int) -> Vec:
                     v = agg_value(op, vals, fam, len(p), delim)
             for r in p:
                 out[r] = v
-        return Vec(rf, out, ftype="w")
+        return Vec(rf, out, ftype="w", inexact=_fn_inexact(op, rf, args))
 
     # genuine window functions
     order_dep = op in ORDER_SENSITIVE
@@ -1085,7 +1120,7 @@ def eval_window(e, ctx: Ctx, n: int) -> Vec:
         else:
             raise RefUnsupported(op)
     rf = "int" if op in ("row_number", "rank", "dense_rank") else args[0].fam
-    return Vec(rf, out, ftype="w")
+    return Vec(rf, out, ftype="w", inexact=_fn_inexact(op, rf, args))
 
 
 def eval_groups(e, ctx: Ctx, groups: list[list[int]], n: int) -> Vec:
@@ -1102,11 +1137,10 @@ def eval_groups(e, ctx: Ctx, groups: list[list[int]], n: int) -> Vec:
         if cid not in ctx.tbl.group:
             raise RefReject("FunctionTypeError", "column neither aggregated nor grouping column")
         c = ctx.tbl.cols[cid]
-        return Vec(c.fam, [c.data[p[0]] for p in groups])
+        return Vec(c.fam, [c.data[p[0]] for p in groups], inexact=cid in INEXACT_IDS)
     if k == "cast":
         v = eval_groups(e["e"], ctx, groups, n)
-        tf = target_family(e["to"])
-        return Vec(tf, [cast_value(x, v.fam, e["to"]) for x in v.data], const=v.const)
+        return _cast_vec(v, e)
     if k == "case":
         conds = [eval_groups(c, ctx, groups, n) for c, _ in e["cases"]]
         vals = [eval_groups(v, ctx, groups, n) for _, v in e["cases"]]
@@ -1127,7 +1161,7 @@ def eval_groups(e, ctx: Ctx, groups: list[list[int]], n: int) -> Vec:
             if not hit and dflt is not None:
                 res = dflt.data[r]
             out.append(_coerce(res, rf) if rf in ("int", "float") else res)
-        return Vec(rf, out)
+        return Vec(rf, out, inexact=any(v.inexact for v in vals + ([dflt] if dflt else [])))
     if k == "fn":
         op = e["op"]
         if op in WINDOWS:
@@ -1168,7 +1202,7 @@ def eval_groups(e, ctx: Ctx, groups: list[list[int]], n: int) -> Vec:
                     else:
                         vals.append(None)
                 out.append(agg_value(op, vals, fam, len(p), delim))
-            return Vec(rf, out, ftype="a")
+            return Vec(rf, out, ftype="a", inexact=_fn_inexact(op, rf, args))
         args = [eval_groups(a, ctx, groups, n) for a in e["a"]]
         rowsiter = zip(*[a.data for a in args]) if args else iter([()] * g)
         fams = [a.fam for a in args]
@@ -1176,7 +1210,8 @@ def eval_groups(e, ctx: Ctx, groups: list[list[int]], n: int) -> Vec:
             rf, out = _apply_special(op, fams, rowsiter)
         else:
             rf, out = _apply_elementwise(op, fams, rowsiter)
-        return Vec(rf, out, const=all(a.const for a in args))
+        out = _taint_discontinuous(op, args, out)
+        return Vec(rf, out, const=all(a.const for a in args), inexact=_fn_inexact(op, rf, args))
     raise RefUnsupported(k)
 
 
@@ -1252,6 +1287,8 @@ def v_mutate(t, kw, handles, mode):
     for name, e in kw:
         v = eval_rows(e, ctx, t.n)
         cid = new_id()
+        if v.inexact:
+            INEXACT_IDS.add(cid)
         newcols.append((name, RCol(cid, v.fam, list(v.data), name, const=v.const)))
     new = t.copy()
     for name, c in newcols:
@@ -1382,6 +1419,8 @@ def v_summarize(t, kw, handles, mode):
     for name, e in kw:
         v = eval_groups(e, ctx, groups, t.n)
         cid = new_id()
+        if v.inexact:
+            INEXACT_IDS.add(cid)
         made.append((name, RCol(cid, v.fam, list(v.data), name, const=False)))
         last[name] = cid
     seen = set()
@@ -1528,6 +1567,8 @@ def v_union(left: RTable, right: RTable, distinct, handles, mode):
     for j, (nm, i) in enumerate(left.vis):
         # the result column keeps the left column's identity (only visible left columns survive)
         new.cols[i] = RCol(i, fams[nm], [row[j] for row in rows], left.cols[i].name0)
+        if rmap[nm] in INEXACT_IDS:
+            INEXACT_IDS.add(i)
         new.vis.append((nm, i))
     new.seq_defined = new.n <= 1
     new.ordkeys = []
@@ -1540,6 +1581,7 @@ def v_alias(t: RTable, keep_col_refs, name, handles, mode):
         new.name = name
     if not keep_col_refs:
         mp = {i: new_id() for i in t.cols}
+        INEXACT_IDS.update(mp[i] for i in mp if i in INEXACT_IDS)
         new.cols = {mp[i]: RCol(mp[i], c.fam, c.data, c.name0, c.const) for i, c in t.cols.items()}
         new.vis = [(n, mp[i]) for n, i in t.vis]
         new.group = [mp[i] for i in t.group]
@@ -1560,6 +1602,7 @@ def v_collect(t: RTable, keep_col_refs, handles, mode):
         new.cols = {i: c for i, c in t.cols.items() if i in vis_ids}
     else:
         mp = {i: new_id() for i in vis_ids}
+        INEXACT_IDS.update(mp[i] for i in mp if i in INEXACT_IDS)
         new.cols = {mp[i]: RCol(mp[i], t.cols[i].fam, t.cols[i].data, t.cols[i].name0) for i in vis_ids}
         new.vis = [(n, mp[i]) for n, i in t.vis]
         new.group = []
@@ -1577,6 +1620,7 @@ def v_transfer(t: RTable, ref_source: RTable, handles, mode):
             raise RefReject("ValueError", "column missing in the reference source")
     new = t.copy()
     mp = {i: rmap[n] for n, i in t.vis}
+    INEXACT_IDS.update(mp[i] for i in mp if i in INEXACT_IDS)
     new.cols = {mp[i]: RCol(mp[i], t.cols[i].fam, t.cols[i].data, t.cols[i].name0, t.cols[i].const) for i in mp}
     new.vis = [(n, mp[i]) for n, i in t.vis]
     new.group = [mp[i] for i in t.group if i in mp]
